@@ -16,37 +16,67 @@
 (*                                                                          *)
 (* Dev \subseteq {"StaleWalKept", "BackupNotAtomic"} switches on what the  *)
 (* unrepaired code does; Dev = {} is the repaired design.                  *)
+(*                                                                          *)
+(* Journal mode is part of the state: every database file carries the mode *)
+(* stored in its header ("wal" / "del" = rollback journal, SQLite's        *)
+(* default), a rollback journal <db>-journal is a file of its own ("cold": *)
+(* created, header not yet synced, ignored by SQLite; "hot": synced, its   *)
+(* pre-images are played over whatever main file lies beside it on the     *)
+(* next access).  A write too large for SQLite's page cache ("bigwrite")   *)
+(* spills BEFORE its commit: into the -wal (harmless: frames without a     *)
+(* commit record) or, in rollback mode, into the main file behind a hot    *)
+(* journal.  The history may start from other states than the library's    *)
+(* own cleanly closed database (Starts): a path that does not exist, an    *)
+(* existing zero-length file, a database in rollback mode.  The repaired   *)
+(* design switches to WAL on EVERY open, so the restore only has to remove *)
+(* -wal/-shm.  Dev "JournalModeKept": the open chooses the journal mode    *)
+(* only for a file it creates itself and keeps what it finds otherwise.    *)
 EXTENDS Naturals, Sequences, FiniteSets, TLC
 
 CONSTANTS
   Dev,        \* deviations switched on
   MaxRuns,    \* number of process runs explored
-  FlowDef     \* flow name -> sequence of calls after open ("backup","write","close")
+  FlowDef,    \* flow name -> sequence of calls after open ("backup","write","bigwrite","close")
+  Starts      \* kinds of initial state: "base", "basedel", "zero", "absent"
 
 WD == 99
 Pages(c) == c \ {WD}
 
-File(st, c) == [st |-> st, c |-> c]
-Absent == File("absent", {})
-Zero == File("zero", {})            \* zero-length file (sqlite3.connect creates it)
-Db(c) == File("db", c)              \* valid database with content c
+File(st, c, m) == [st |-> st, c |-> c, m |-> m]
+Absent == File("absent", {}, "-")
+Zero == File("zero", {}, "-")       \* zero-length file (sqlite3.connect creates it)
+Db(c, m) == File("db", c, m)        \* valid database with content c, journal mode m in its header
 
 Wal(st, c, foreign) == [st |-> st, c |-> c, foreign |-> foreign]
 NoWal == Wal("absent", {}, FALSE)
 EmptyWal == Wal("empty", {}, FALSE) \* zero-length -wal
 NoPend == [some |-> FALSE, c |-> {}]
+\* rollback journal: c = the committed content its pre-images restore (meaningful when hot)
+Jrn(st, c, foreign) == [st |-> st, c |-> c, foreign |-> foreign]
+NoJrn == Jrn("absent", {}, FALSE)
+ColdJrn == Jrn("cold", {}, FALSE)
 
 StaleWalKept == "StaleWalKept" \in Dev
 BackupNotAtomic == "BackupNotAtomic" \in Dev
+JournalModeKept == "JournalModeKept" \in Dev
 
 (* ------------------------------------------------------------------ *)
 (* the durable state + ghosts as one record, steps as functions on it  *)
 (* ------------------------------------------------------------------ *)
-\* s = [main, wal, shm, bak, tmp,       files
+\* s = [main, wal, shm, jrn, bak, tmp,  files
 \*      pend,                            uncommitted writes of the connection
-\*      expected, bakDone, mixed]        ghosts
-InitS == [main |-> Db({0, WD}), wal |-> NoWal, shm |-> "absent", bak |-> Absent, tmp |-> Absent,
-          pend |-> NoPend, expected |-> {0}, bakDone |-> FALSE, mixed |-> FALSE]
+\*      created,                         this process's connect created the main file
+\*      expected, bakDone, mixed, start] ghosts
+InitS == [main |-> Db({0, WD}, "wal"), wal |-> NoWal, shm |-> "absent", jrn |-> NoJrn, bak |-> Absent, tmp |-> Absent,
+          pend |-> NoPend, created |-> FALSE, expected |-> {0}, bakDone |-> FALSE, mixed |-> FALSE, start |-> "base"]
+\* "base": the library's own cleanly closed database; "basedel": the same pages in a database whose
+\* header says rollback journal (made by another tool / an older version); "zero": the path is an
+\* existing empty file (mkstemp idiom); "absent": nothing there yet
+InitOf(k) ==
+  CASE k = "base" -> InitS
+    [] k = "basedel" -> [InitS EXCEPT !.main = Db({0, WD}, "del"), !.start = k]
+    [] k = "zero" -> [InitS EXCEPT !.main = Zero, !.expected = {}, !.start = k]
+    [] k = "absent" -> [InitS EXCEPT !.main = Absent, !.expected = {}, !.start = k]
 
 \* what SQLite shows through a connection opened on the files (committed data)
 Visible(s) == IF s.main.st # "db" THEN {}
@@ -56,9 +86,13 @@ ConnVisible(s) == IF s.pend.some THEN s.pend.c ELSE Visible(s)
 
 \* commit: pending rows are appended to the -wal; "last committed content"
 \* is what the statement demands as long as no backup has been completed
+\* (rollback mode: the journal is synced, the main file written, the journal deleted - one call)
 CommitS(s) ==
   IF ~s.pend.some THEN s
-  ELSE [s EXCEPT !.wal = Wal("data", s.pend.c, FALSE), !.shm = "present", !.pend = NoPend,
+  ELSE IF s.main.m = "wal"
+  THEN [s EXCEPT !.wal = Wal("data", s.pend.c, FALSE), !.shm = "present", !.pend = NoPend,
+                 !.expected = IF s.bakDone THEN s.expected ELSE Pages(s.pend.c)]
+  ELSE [s EXCEPT !.main = Db(s.pend.c, s.main.m), !.jrn = NoJrn, !.pend = NoPend,
                  !.expected = IF s.bakDone THEN s.expected ELSE Pages(s.pend.c)]
 
 (* ---- create_db (core.py:394-413) ---- *)
@@ -72,21 +106,46 @@ StepOw(s) == [s EXCEPT !.wal = NoWal]
 StepOs(s) == [s EXCEPT !.shm = "absent"]
 StepO2(s) == [s EXCEPT !.main = Absent]
 StepO3(s) == [s EXCEPT !.main = s.bak, !.bak = Absent, !.bakDone = FALSE, !.mixed = FALSE,
-                       !.wal = [s.wal EXCEPT !.foreign = (s.wal.st # "absent")]]
-StepO4(s) == [s EXCEPT !.main = IF s.main.st = "absent" THEN Zero ELSE s.main]
+                       !.wal = [s.wal EXCEPT !.foreign = (s.wal.st # "absent")],
+                       !.jrn = [s.jrn EXCEPT !.foreign = (s.jrn.st # "absent")]]
+StepO4(s) == [s EXCEPT !.main = IF s.main.st = "absent" THEN Zero ELSE s.main,
+                       !.created = (s.main.st = "absent")]
+\* the journal mode the file has after the open's script: WAL always (repaired design: the pragma
+\* is part of every open); with JournalModeKept only for a file this open created - SQLite's default
+\* for an existing empty file, the header's mode for an existing database
+ModeAfterOpen(s) == IF ~JournalModeKept \/ s.created THEN "wal"
+                    ELSE IF s.main.st = "zero" THEN "del" ELSE s.main.m
 StepO5(s) ==
+  LET m == ModeAfterOpen(s)
+      hotForeign == s.jrn.st = "hot" /\ s.jrn.foreign IN
   IF s.main.st = "zero"
   THEN \* a database without pages: SQLite deletes a non-empty -wal lying beside it (a
        \* zero-length one counts as absent and stays, so does a -shm); CREATE TABLE writes
        \* the file in rollback mode, then the header is switched to WAL
-       [s EXCEPT !.main = Db({}), !.wal = IF s.wal.st = "data" THEN NoWal ELSE s.wal]
-  ELSE \* WAL recovery: whatever -wal lies beside the file is replayed over it
-       [s EXCEPT !.shm = "present",
-                 !.wal = IF s.wal.st = "absent" THEN EmptyWal ELSE [s.wal EXCEPT !.foreign = FALSE],
-                 !.mixed = s.mixed \/ (s.wal.st = "data" /\ s.wal.foreign)]
+       [s EXCEPT !.main = Db({}, m), !.jrn = NoJrn,
+                 !.wal = IF s.wal.st = "data" /\ m = "wal" THEN NoWal ELSE s.wal]
+  ELSE IF m = "wal"
+  THEN \* a hot journal is rolled back first (its own: back to the committed content, which is what
+       \* main.c stands for; one of a replaced file: pre-images of another database are written
+       \* over this one), the header is switched to WAL if it was not, then
+       \* WAL recovery: whatever -wal lies beside the file is replayed over it
+       \* (a file switched to WAL by the pragma gets its -wal/-shm only with the next access: O6)
+       [s EXCEPT !.main = Db(s.main.c, "wal"), !.jrn = NoJrn,
+                 !.shm = IF s.main.m = "wal" THEN "present" ELSE s.shm,
+                 !.wal = IF s.main.m # "wal" THEN s.wal
+                         ELSE IF s.wal.st = "absent" THEN EmptyWal ELSE [s.wal EXCEPT !.foreign = FALSE],
+                 !.mixed = s.mixed \/ (s.wal.st = "data" /\ s.wal.foreign) \/ hotForeign]
+  ELSE \* rollback mode kept: a hot journal is rolled back and deleted, a cold one is ignored and stays
+       [s EXCEPT !.jrn = IF s.jrn.st = "hot" THEN NoJrn ELSE s.jrn,
+                 !.mixed = s.mixed \/ hotForeign]
 StepO6(s) ==
-  IF WD \in Visible(s) THEN s
-  ELSE [s EXCEPT !.wal = Wal("data", Visible(s) \cup {WD}, FALSE), !.shm = "present"]
+  IF WD \in Visible(s)
+  THEN IF s.main.m = "wal"    \* CREATE TABLE IF NOT EXISTS reads the schema: the WAL is opened at the latest here
+       THEN [s EXCEPT !.shm = "present", !.wal = IF s.wal.st = "absent" THEN EmptyWal ELSE s.wal]
+       ELSE s
+  ELSE IF s.main.m = "wal"
+  THEN [s EXCEPT !.wal = Wal("data", Visible(s) \cup {WD}, FALSE), !.shm = "present"]
+  ELSE [s EXCEPT !.main = Db(Visible(s) \cup {WD}, s.main.m)]
 
 AfterO1(s) == IF s.bak.st # "absent" THEN (IF StaleWalKept THEN "O2" ELSE "Ow") ELSE "O4"
 
@@ -101,8 +160,8 @@ StepB3(s) ==
   ELSE [s EXCEPT !.tmp = IF s.tmp.st = "absent" THEN Zero ELSE s.tmp]
 StepB4(s) ==
   IF BackupNotAtomic
-  THEN [s EXCEPT !.bak = Db(ConnVisible(s)), !.bakDone = TRUE, !.expected = Pages(ConnVisible(s))]
-  ELSE [s EXCEPT !.tmp = Db(ConnVisible(s))]
+  THEN [s EXCEPT !.bak = Db(ConnVisible(s), s.main.m), !.bakDone = TRUE, !.expected = Pages(ConnVisible(s))]
+  ELSE [s EXCEPT !.tmp = Db(ConnVisible(s), s.main.m)]   \* the copy carries the header, journal mode included
 StepB6(s) == [s EXCEPT !.bak = s.tmp, !.tmp = Absent, !.bakDone = TRUE, !.expected = Pages(s.tmp.c)]
 
 FirstB == IF BackupNotAtomic THEN "B1" ELSE "B2"
@@ -110,13 +169,25 @@ AfterB2 == IF BackupNotAtomic THEN "B3" ELSE "Bt"
 AfterB5 == IF BackupNotAtomic THEN "open" ELSE "B6"
 
 (* ---- overwrite_pages(do_overwrite=True): add_page ..., commit ---- *)
-StepW1(s, g) == [s EXCEPT !.pend = [some |-> TRUE, c |-> ConnVisible(s) \cup {g}]]
+\* rollback mode: the first modified page creates the journal file (header still zero: cold)
+StepW1(s, g) == [s EXCEPT !.pend = [some |-> TRUE, c |-> ConnVisible(s) \cup {g}],
+                          !.jrn = IF s.main.m = "wal" THEN s.jrn ELSE ColdJrn]
 StepW2(s) == CommitS(s)
+\* bigwrite = V1 (as W1: the first pages still fit the cache), V2 (the cache spills: uncommitted
+\* pages reach the disk), W2 (commit).  WAL: frames without commit record are appended - the
+\* visible content stays; rollback: the journal is synced (hot from now on, pre-images = the
+\* committed content) and the main file is overwritten in place
+StepV2(s) ==
+  IF s.main.m = "wal"
+  THEN [s EXCEPT !.shm = "present",
+                 !.wal = IF s.wal.st = "data" THEN s.wal ELSE Wal("data", Visible(s), FALSE)]
+  ELSE [s EXCEPT !.jrn = Jrn("hot", Visible(s), FALSE)]
 
 (* ---- close_db_conn: commit, close (last connection: checkpoint, side files removed) ---- *)
 StepC1(s) == CommitS(s)
-StepC2(s) == [s EXCEPT !.main = IF s.main.st = "db" THEN Db(Visible(s)) ELSE s.main,
-                       !.wal = NoWal, !.shm = "absent"]
+StepC2(s) == [s EXCEPT !.main = IF s.main.st = "db" THEN Db(Visible(s), s.main.m) ELSE s.main,
+                       !.wal = IF s.main.m = "wal" THEN NoWal ELSE s.wal,
+                       !.shm = IF s.main.m = "wal" THEN "absent" ELSE s.shm, !.created = FALSE]
 
 (* ---- the whole open as a function (used to predict what a reopen yields) ---- *)
 RECURSIVE OpenFrom(_, _)
@@ -129,7 +200,7 @@ OpenFrom(p, s) ==
     [] p = "O4" -> OpenFrom("O5", StepO4(s))
     [] p = "O5" -> OpenFrom("O6", StepO5(s))
     [] p = "O6" -> StepO6(s)
-Reopened(s) == OpenFrom("O1", [s EXCEPT !.pend = NoPend])
+Reopened(s) == OpenFrom("O1", [s EXCEPT !.pend = NoPend, !.created = FALSE])
 
 (* ------------------------------------------------------------------ *)
 (* state machine                                                       *)
@@ -144,9 +215,12 @@ VARIABLES
 
 vars == <<s, pc, todo, runs, nw, fresh>>
 
-Init == s = InitS /\ pc = "idle" /\ todo = <<>> /\ runs = 0 /\ nw = 0 /\ fresh = FALSE
+InitWith(k) == s = InitOf(k) /\ pc = "idle" /\ todo = <<>> /\ runs = 0 /\ nw = 0 /\ fresh = FALSE
+Init == \E k \in Starts : InitWith(k)
 
-GenId == 2 * (runs - 1) + nw + 1     \* run 1: 1,2  run 2: 3,4 ...
+\* "base": run 1: 1,2  run 2: 3,4 ...;  the other start kinds (flows with up to three writes) use
+\* numbers of their own: run 1: 11,12,13  run 2: 14,15,16 ...
+GenId == IF s.start = "base" THEN 2 * (runs - 1) + nw + 1 ELSE 10 + 3 * (runs - 1) + nw + 1
 
 Goto(p, s2) == s' = s2 /\ pc' = p /\ fresh' = FALSE /\ UNCHANGED <<todo, runs, nw>>
 
@@ -168,6 +242,7 @@ Call(c, first) == /\ pc = "open" /\ todo # <<>> /\ Head(todo) = c
                   /\ pc' = first /\ todo' = Tail(todo) /\ fresh' = FALSE /\ UNCHANGED <<s, runs, nw>>
 CallBackup == Call("backup", FirstB)
 CallWrite == Call("write", "W1")
+CallBigWrite == Call("bigwrite", "V1")
 CallClose == Call("close", "C1")
 
 B1 == pc = "B1" /\ Goto("B2", StepB1(s))
@@ -180,20 +255,22 @@ B6 == pc = "B6" /\ Goto("open", StepB6(s))
 
 W1 == pc = "W1" /\ s' = StepW1(s, GenId) /\ nw' = nw + 1 /\ pc' = "W2" /\ fresh' = FALSE /\ UNCHANGED <<todo, runs>>
 W2 == pc = "W2" /\ Goto("open", StepW2(s))
+V1 == pc = "V1" /\ s' = StepW1(s, GenId) /\ nw' = nw + 1 /\ pc' = "V2" /\ fresh' = FALSE /\ UNCHANGED <<todo, runs>>
+V2 == pc = "V2" /\ Goto("W2", StepV2(s))
 
 C1 == pc = "C1" /\ Goto("C2", StepC1(s))
 C2 == pc = "C2" /\ Goto("idle", StepC2(s))
 
 \* the process is killed (exit without cleanup): uncommitted writes are gone, files stay
 Crash == /\ pc # "idle"
-         /\ pc' = "idle" /\ s' = [s EXCEPT !.pend = NoPend] /\ todo' = <<>>
+         /\ pc' = "idle" /\ s' = [s EXCEPT !.pend = NoPend, !.created = FALSE] /\ todo' = <<>>
          /\ fresh' = FALSE /\ UNCHANGED <<runs, nw>>
 
 StartAny == \E fl \in DOMAIN FlowDef : Start(fl)
 
 Next == StartAny \/ O1 \/ Ow \/ Os \/ O2 \/ O3 \/ O4 \/ O5 \/ O6
-        \/ CallBackup \/ CallWrite \/ CallClose
-        \/ B1 \/ B2 \/ Bt \/ B3 \/ B4 \/ B5 \/ B6 \/ W1 \/ W2 \/ C1 \/ C2 \/ Crash
+        \/ CallBackup \/ CallWrite \/ CallBigWrite \/ CallClose
+        \/ B1 \/ B2 \/ Bt \/ B3 \/ B4 \/ B5 \/ B6 \/ W1 \/ W2 \/ V1 \/ V2 \/ C1 \/ C2 \/ Crash
 
 Spec == Init /\ [][Next]_vars
 
@@ -218,7 +295,7 @@ BackupNeverCosts == (pc \in {"B1", "B2", "Bt", "B3", "B4", "B5", "B6"}) =>
                       Pages(Visible(Reopened(s))) # {} \/ s.expected = {}
 
 (* observable file state (what the harness can see from outside) *)
-ObsFile(f) == [st |-> f.st, c |-> f.c]
+ObsFile(f) == [st |-> f.st, c |-> f.c, m |-> f.m]
 Obs(t) == [main |-> ObsFile(t.main), wal |-> t.wal.st, vis |-> Visible(t),
-           shm |-> t.shm, bak |-> ObsFile(t.bak), tmp |-> ObsFile(t.tmp)]
+           shm |-> t.shm, jrn |-> t.jrn.st, bak |-> ObsFile(t.bak), tmp |-> ObsFile(t.tmp)]
 =============================================================================
